@@ -1,9 +1,101 @@
 import ALV.Common.Json
+import ALV.Model.C20
+import ALV.Spec.C20
 namespace ALV.Driver.C20
-open ALV ALV.J
+open ALV ALV.J ALV.C20
 
-/-- stub: the C20 slice is not built yet -/
-def handle (entry : String) (_j : Json) : Except String Json :=
-  throw s!"C20: unknown entry {entry}"
+/-- floor of a rational, as a rational (Python `//` on Fractions) -/
+def flRat (r : Rat) : Rat := (r.floor : Rat)
+
+def optRat (j : Json) (k : String) : Except String (Option Rat) :=
+  match optField j k with
+  | none => pure none
+  | some v => do let r ← getRat v; pure (some r)
+
+def exceptJson (r : Except String (List Rat)) : Json :=
+  match r with
+  | .ok l => rats l
+  | .error e => Json.mkObj [("err", Json.str e)]
+
+/-- is `d` an integer multiple of `step` (step ≠ 0) -/
+def isMultiple (step d : Rat) : Bool := (d / step).den == 1
+
+def handle (entry : String) (j : Json) : Except String Json := do
+  match entry with
+  | "maverage" =>
+    let size ← getNat (← field j "size")
+    if size = 0 then throw "size must be positive"
+    let zero ← getRat (fieldD j "zero" (Json.int 0))
+    let xs ← getList getRat (← field j "xs")
+    pure <| Json.mkObj [
+      ("deque", rats (maverageDeque size zero xs)),
+      ("recursive", rats (maverageRecursive size zero xs)),
+      ("fir", rats (maverageFir size zero xs)),
+      ("spec", rats (mavgSpec size zero xs)),
+      ("closed", rats (mavgClosed size zero xs))]
+  | "accumulate" =>
+    let zero ← getRat (fieldD j "zero" (Json.int 0))
+    let xs ← getList getRat (← field j "xs")
+    pure <| Json.mkObj [
+      ("func", rats (accumulateFunc xs)),
+      ("it", rats (accumulateIt xs)),
+      ("z", rats (accumulateZ zero xs)),
+      ("spec", rats (accSpec xs))]
+  | "amdf" =>
+    let lag ← getNat (← field j "lag")
+    let size ← getNat (← field j "size")
+    if size = 0 then throw "size must be positive"
+    let zero ← getRat (fieldD j "zero" (Json.int 0))
+    let xs ← getList getRat (← field j "xs")
+    pure <| Json.mkObj [
+      ("model", rats (amdf lag size zero xs)),
+      ("spec", rats (amdfSpec lag size zero xs))]
+  | "envelope" =>
+    let b ← getList getRat (← field j "b")
+    let a ← getList getRat (← field j "a")
+    let xs ← getList getRat (← field j "xs")
+    pure <| Json.mkObj [
+      ("abs", rats (envelopeAbs b a xs)),
+      ("squared", rats (envelopeSquared b a xs))]
+  | "clip" =>
+    let low ← optRat j "low"
+    let high ← optRat j "high"
+    let xs ← getList getRat (← field j "xs")
+    let m := clip low high xs
+    let twice := match m with
+      | .ok ys => clip low high ys
+      | .error e => .error e
+    let bounded : Bool := match m with
+      | .ok ys => ys.all fun y =>
+          (match low with | some lo => !(decide (y < lo)) | none => true) &&
+          (match high with | some hi => !(decide (hi < y)) | none => true)
+      | .error _ => true
+    pure <| Json.mkObj [
+      ("model", exceptJson m),
+      ("spec", exceptJson (clipSpec low high xs)),
+      ("twice", exceptJson twice),
+      ("bounded", Json.bool bounded)]
+  | "zcross" =>
+    let h ← getRat (fieldD j "hysteresis" (Json.int 0))
+    let fs ← getRat (fieldD j "first_sign" (Json.int 0))
+    let xs ← getList getRat (← field j "xs")
+    pure <| Json.mkObj [
+      ("model", nats (zcross h fs xs)),
+      ("spec", nats (zcrossSpec h fs xs))]
+  | "unwrap" =>
+    let md ← getRat (← field j "max_delta")
+    let step ← getRat (← field j "step")
+    if step = 0 then throw "step must be non-zero"
+    let xs ← getList getRat (← field j "xs")
+    let m := unwrap flRat md step xs
+    let multiple := (List.zipWith (fun y x => isMultiple step (y - x)) m xs).all id
+    let bound := if md < step / 2 then step / 2 else md
+    let adj := (List.zipWith (fun y0 y1 => !(decide (bound < absG (y1 - y0)))) m (m.drop 1)).all id
+    pure <| Json.mkObj [
+      ("model", rats m),
+      ("spec", rats (unwrapSpec flRat md step xs)),
+      ("multiple", Json.bool multiple),
+      ("adjacent", Json.bool adj)]
+  | _ => throw s!"C20: unknown entry {entry}"
 
 end ALV.Driver.C20
